@@ -85,12 +85,9 @@ func TemplatesWithSkipSchemaValidation(linter *support.Linter, values map[string
 		return
 	}
 
-	cvals, err := chartutil.CoalesceValues(chart, values)
-	if err != nil {
-		return
-	}
-
-	valuesToRender, err := chartutil.ToRenderValuesWithSchemaValidation(chart, cvals, options, caps, skipSchemaValidation)
+	// ToRenderValuesWithSchemaValidation coalesces the chart values itself. Coalescing here as
+	// well would process nulls twice, so that lint validated other values than install does.
+	valuesToRender, err := chartutil.ToRenderValuesWithSchemaValidation(chart, values, options, caps, skipSchemaValidation)
 	if err != nil {
 		linter.RunLinterRule(support.ErrorSev, fpath, err)
 		return
